@@ -107,6 +107,8 @@ structure St where
   cells : Array Cell := #[]
   objs : Array (List Layer) := #[]
   cache : List ((ObjId × String × Nat) × CacheV) := []
+  /-- object-level locals are bound once per (object, layer) and shared by its fields and asserts -/
+  layerEnvs : List ((ObjId × Nat) × Env) := []
   asserted : List ObjId := []
   asserting : List ObjId := []
   trace : List String := []
@@ -343,6 +345,21 @@ def run : Nat → Task → M Out
       | .error st, _ => throw st
       | _, .error st => throw st
       | .ok xv, .ok yv => pure (xv, yv)
+    -- the context of a member of layer `i` of object `o`: the layer's environment extended with the
+    -- object-level locals, bound once per (object, layer) when the member's environment is the
+    -- layer's own (object comprehensions carry a per-field environment and bind afresh)
+    let layerCtx (o : ObjId) (i : Nat) (l : Layer) (fenv : Env) : M Ctx := do
+      let c0 : Ctx := { env := fenv, this := some (o, i), dollar := some (l.dollar.getD o) }
+      if l.locals.isEmpty then pure c0 else
+      if fenv == l.assertEnv then
+        let s ← get
+        match s.layerEnvs.find? (fun p => p.1.1 == o && p.1.2 == i) with
+        | some (_, env) => pure { c0 with env := env }
+        | none =>
+          let c ← bindLocals c0 l.locals (some (o, i)) (some (l.dollar.getD o))
+          modify fun s => { s with layerEnvs := ((o, i), c.env) :: s.layerEnvs }
+          pure c
+      else bindLocals c0 l.locals (some (o, i)) (some (l.dollar.getD o))
     let thunk (c : Ctx) (e : Expr) : M Ref := alloc (.waiting c e)
     let toStrM (v : Val) : M String := do
       match ← run n (.toStr v) with | .str s => pure s | _ => undecided "internal: toStr"
@@ -391,8 +408,7 @@ def run : Nat → Task → M Out
         let mut idx := 0
         for l in layers do
           for (cond, msg) in l.asserts do
-            let c0 : Ctx := { env := l.assertEnv, this := some (o, idx), dollar := some (l.dollar.getD o) }
-            let c ← bindLocals c0 l.locals (some (o, idx)) (some (l.dollar.getD o))
+            let c ← layerCtx o idx l l.assertEnv
             match ← evalV c cond with
             | .bool true => pure ()
             | .bool false =>
@@ -434,8 +450,7 @@ def run : Nat → Task → M Out
             match layers[i]? with
             | none => pure ()
             | some l =>
-              let c0 : Ctx := { env := f.env, this := some (o, i), dollar := some (l.dollar.getD o) }
-              let c ← bindLocals c0 l.locals (some (o, i)) (some (l.dollar.getD o))
+              let c ← layerCtx o i l f.env
               let v ← evalV c f.body
               vals := vals ++ [v]
               if !f.plus then stop := true
